@@ -464,8 +464,14 @@ class DatasetProcessor:
                         with open(gunzipped_reference + ".tmp", "w") as outf:
                             shutil.copyfileobj(gzip.open(self.args.reference, "rt"), outf)
                         os.replace(gunzipped_reference + ".tmp", gunzipped_reference)
+                        if os.path.exists(gunzipped_reference + ".fai"):
+                            # the index of an earlier copy: it is built anew (under a temporary name, see load_reference)
+                            os.remove(gunzipped_reference + ".fai")
                         logger.info("Loading uncompressed reference from " + gunzipped_reference)
                     self.args.reference = gunzipped_reference
+                    # the unpacked copy belongs to this run, and so does its index: the index next to the compressed file is shared
+                    # with other runs and would be rebuilt in place for every new copy
+                    args.fai_file_name = gunzipped_reference + ".fai"
                     self.reference_record_dict = self.load_reference(self.args.reference, args.fai_file_name)
             else:
                 self.reference_record_dict = self.load_reference(self.args.reference, args.fai_file_name)
